@@ -31,6 +31,14 @@ func (p *PcClient) GetRemoteProcessesState() (*types.ProcessesState, error) {
 		return nil, err
 	}
 	defer resp.Body.Close()
+	if resp.StatusCode != http.StatusOK {
+		var respErr pcError
+		if err = json.NewDecoder(resp.Body).Decode(&respErr); err != nil {
+			log.Err(err).Msg("failed to decode error response")
+			return nil, err
+		}
+		return nil, errors.New(respErr.Error)
+	}
 	//Create a variable of the same type as our model
 	var sResp types.ProcessesState
 
@@ -75,6 +83,14 @@ func (p *PcClient) getProcessInfo(name string) (*types.ProcessConfig, error) {
 		return nil, err
 	}
 	defer resp.Body.Close()
+	if resp.StatusCode != http.StatusOK {
+		var respErr pcError
+		if err = json.NewDecoder(resp.Body).Decode(&respErr); err != nil {
+			log.Err(err).Msg("failed to decode error response")
+			return nil, err
+		}
+		return nil, errors.New(respErr.Error)
+	}
 	var sResp types.ProcessConfig
 
 	//Decode the data
@@ -93,6 +109,14 @@ func (p *PcClient) getProcessPorts(name string) (*types.ProcessPorts, error) {
 		return nil, err
 	}
 	defer resp.Body.Close()
+	if resp.StatusCode != http.StatusOK {
+		var respErr pcError
+		if err = json.NewDecoder(resp.Body).Decode(&respErr); err != nil {
+			log.Err(err).Msg("failed to decode error response")
+			return nil, err
+		}
+		return nil, errors.New(respErr.Error)
+	}
 	var sResp types.ProcessPorts
 
 	//Decode the data
